@@ -254,6 +254,9 @@ def gen_script(rng, max_agents=5, max_t=8, allow_big=False):
         sc["plainIds"] = True                 # agent0 .. agent13: agent1 is a substring of agent10, agent10 < agent2
     if rng.random() < 0.3:
         sc["npFlags"] = True                  # done flags are numpy.bool_ objects
+    if not all(learning) and rng.random() < 0.4:
+        # non-learning entities that only observe (1) or only act (2): not agents in the managers' sense
+        sc["halves"] = [0 if learning[a] else rng.choice([0, 1, 2]) for a in range(n)]
     if rng.random() < 0.25:
         sc["shadow"] = rng.randrange(10 ** 6)  # a second manager is used in between (see Session)
     if rng.random() < 0.2:
